@@ -54,3 +54,17 @@ add(
     "Trusts the 50-line itertools/numpy brute force (capped at 1e5 joint assignments); integer scales only (plate replication); a raised ValueError/NotImplementedError is a decline.",
     "DESIGN.md section 3 C09",
 )
+add(
+    "C12",
+    "property-based testing: generated Gaussians (all ranks, every interleaving of batch and real inputs) and chains of pointwise operations vs. the dense quadratic form evaluated point-wise",
+    "Bounded exploration over Gaussians with 1-3 real inputs (total dim <=5), 0-2 batch inputs, rank-deficient/square/over-complete factors and chains of up to 3 operations (add, subtract, substitution of numbers/batched tensors/affine expressions, integer indexing/slicing/renaming, align, Cat, compress_gaussians, lazy+reinterpret) plus all 9 constructor parametrisations; the result is compared with -1/2||xS-w||^2 at every batch index and 3 real points.",
+    "Trusts numpy and the point-wise reference evaluator; parameters are well-conditioned by construction.",
+    "DESIGN.md section 3 C12",
+)
+add(
+    "C13",
+    "property-based testing: generated Gaussians/mixtures x integral operations vs. closed forms (Schur complement, log-det, Gaussian expectation) computed on dense coefficients probed from the reference evaluator",
+    "Bounded exploration over full-rank/over-complete Gaussians, sums and Tensor+Gaussian mixtures in every input interleaving: marginals over any subset, log-normalisers, plate sums, mixture reductions, two-step marginalisation, Integrate against variables/quadratics/Gaussians, moment matching (mass, mean, covariance) and rank-deficient blocks (must not yield a finite number). Completion is demanded on full-rank inputs.",
+    "Trusts numpy.linalg on <=5x5 well-conditioned matrices and exact finite differences of quadratics (verified at an extra point per probe).",
+    "DESIGN.md section 3 C13",
+)
